@@ -715,10 +715,75 @@ def check(hist, st):
     return fails
 
 
+
+# --------------------------------------------------------------------------
+# configurations: the search tolerance is documented as 0.01 ANGSTROM.  Under working units other than the default
+# ones the same physical system (numbers in working units) must accept a site 0.005 A from an atom and refuse one
+# 0.02 A away, and refuse / accept an interstitial accordingly.
+
+UNIT_CONFIGS = [dict(length='angstrom', mass='amu', energy='eV', charge='e'), dict(length='nm', mass='amu', energy='eV', charge='e'),
+                dict(length='pm', mass='amu', energy='eV', charge='e'), dict(length='m', mass='kg', energy='J', charge='C'),
+                dict(length='cm', mass='g', time='s', charge='C')]
+
+
+@chk.clause('units')
+def units(case):
+    import atomman.unitconvert as uc
+    cfg = UNIT_CONFIGS[case['cfg']]
+    fails = []
+    uc.reset_units(**cfg)
+    try:
+        a = float(uc.set_in_units(4.05, 'angstrom'))
+        tol = float(uc.set_in_units(0.01, 'angstrom'))
+        o = np.array([0.3, -0.7, 0.2]) * a
+        box = am.Box(vects=a * np.array([[1.0, 0, 0], [0.2, 1.1, 0], [-0.1, 0.3, 0.9]]), origin=o)
+        rel = np.array([[0.0, 0.0, 0.0], [0.5, 0.5, 0.5], [0.25, 0.75, 0.5]])
+        pos = rel @ box.vects + o
+        s = am.System(atoms=am.Atoms(atype=[1, 2, 1], pos=pos), box=box, symbols=['Al', 'Ni'])
+        dirs = [np.array([1.0, 0, 0]), np.array([0.0, -0.6, 0.8])]
+        for k in range(3):
+            for dvec in dirs:
+                near, far = pos[k] + 0.5 * tol * dvec, pos[k] + 2.0 * tol * dvec
+                calls = [('v', lambda p: vacancy(s, pos=p)), ('s', lambda p: substitutional(s, pos=p, atype=3 - int(s.atoms.atype[k]))),
+                         ('db', lambda p: dumbbell(s, pos=p, db_vect=0.1 * a * np.array([0, 0, 1.0]))),
+                         ('point-v', lambda p: point(s, ptd_type='v', pos=p))]
+                for name, fn in calls:
+                    chk.note('unit-config-calls', 2)
+                    try:
+                        r = fn(near)
+                        want = {'v': 2, 's': 3, 'db': 4, 'point-v': 2}[name]
+                        if r.natoms != want:
+                            fails.append(Fail(key='units-%s-natoms' % name, msg='%s at 0.005 A from atom %d under %s: natoms %d' % (name, k, cfg, r.natoms)))
+                    except ValueError as e:
+                        fails.append(Fail(key='units-%s-near-refused' % name, msg='%s refused a site 0.005 angstrom from atom %d (documented tolerance 0.01 angstrom) under working units %s: %s' % (name, k, cfg, e)))
+                    try:
+                        fn(far)
+                        fails.append(Fail(key='units-%s-far-accepted' % name, msg='%s accepted a site 0.02 angstrom from every atom (documented tolerance 0.01 angstrom) under working units %s' % (name, cfg)))
+                    except ValueError:
+                        pass
+                chk.note('unit-config-calls', 2)
+                try:
+                    interstitial(s, pos=near)
+                    fails.append(Fail(key='units-i-occupied-accepted', msg='interstitial accepted 0.005 angstrom from atom %d under working units %s' % (k, cfg)))
+                except ValueError:
+                    pass
+                try:
+                    r = interstitial(s, pos=far)
+                    if r.natoms != 4:
+                        fails.append(Fail(key='units-i-natoms', msg='interstitial natoms %d' % r.natoms))
+                except ValueError as e:
+                    fails.append(Fail(key='units-i-free-refused', msg='interstitial refused a site 0.02 angstrom from atom %d under working units %s: %s' % (k, cfg, e)))
+                if fails:
+                    return fails
+    finally:
+        uc.reset_units(length='angstrom', mass='amu', energy='eV', charge='e')
+    return fails
+
 if __name__ == '__main__':
     depth = 1 + (3 if THOROUGH else 2)
     ex = Explorer(chk, 'history', build, ops, check, canon, max_depth=depth)
     cov = ex.run()
+    chk.run_cases((('units', {'cfg': c}) for c in range(len(UNIT_CONFIGS))), batch=1)
     cov['insertions_max'] = cov['max_depth_completed'] - 1
     cov['distinct_nontrivial'] = cov['states']
     cov['root_systems'] = len(ROOTS)
